@@ -109,6 +109,7 @@ class PDFTextExtractionNotAllowed(PDFEncryptionError):
 # some predefined literals and keywords.
 LITERAL_OBJSTM = LIT("ObjStm")
 LITERAL_XREF = LIT("XRef")
+LITERAL_IDENTITY = LIT("Identity")
 LITERAL_CATALOG = LIT("Catalog")
 
 
@@ -490,8 +491,9 @@ class PDFStandardSecurityHandlerV4(PDFStandardSecurityHandler):
         super().init_params()
         self.length = 128
         self.cf = dict_value(self.param.get("CF"))
-        self.stmf = literal_name(self.param["StmF"])
-        self.strf = literal_name(self.param["StrF"])
+        # StmF and StrF are optional and default to Identity
+        self.stmf = literal_name(self.param.get("StmF", LITERAL_IDENTITY))
+        self.strf = literal_name(self.param.get("StrF", LITERAL_IDENTITY))
         self.encrypt_metadata = bool(self.param.get("EncryptMetadata", True))
         if self.stmf != self.strf:
             error_msg = "Unsupported crypt filter: param=%r" % self.param
